@@ -588,16 +588,20 @@ class ReverseWeighting(WeightingModel):
             self.subscorer = subscorer
 
         def supports_block_quality(self):
-            return self.subscorer.supports_block_quality()
+            # The wrapped scorer only knows upper bounds on its scores. Negated
+            # they are lower bounds, which are no use for skipping blocks
+            return False
 
         def score(self, matcher):
             return 0 - self.subscorer.score(matcher)
 
         def max_quality(self):
-            return 0 - self.subscorer.max_quality()
+            # The best reversed score belongs to the lowest wrapped score, for
+            # which there is no bound
+            return float("inf")
 
         def block_quality(self, matcher):
-            return 0 - self.subscorer.block_quality(matcher)
+            return float("inf")
 
 
 #class PositionWeighting(WeightingModel):
